@@ -184,4 +184,48 @@ theorem tmpPath_ne_blockPath (h sfx : Name) : tmpPath h sfx ≠ blockPath h := b
   simp [tmpName, tmpPrefix] at this
   omega
 
+/-! ### steps that are local to one file -/
+
+/-- `s` reads and writes nothing but the file at `p` -/
+def LocalAt (p : Path) : Step → Prop
+  | .nop => True
+  | .mkdirAll _ => True
+  | .createTemp q _ => q = p
+  | .append q _ => q = p
+  | .chtimes q _ => q = p
+  | .remove q => q = p
+  | .rename _ _ => False
+
+/-- what a local step does to the file at its path -/
+def localStep : Step → Option File → Option File
+  | .createTemp _ t, _ => some ⟨[], t⟩
+  | .append _ c, some f => some ⟨f.data ++ c, f.mtime⟩
+  | .chtimes _ t, some f => some ⟨f.data, t⟩
+  | .remove _, _ => none
+  | _, x => x
+
+theorem local_avoids {p q : Path} (hne : p ≠ q) {s : Step} (h : LocalAt p s) : s.avoids q := by
+  cases s <;> simp_all [LocalAt, Step.avoids]
+
+theorem get_apply_local {p : Path} {s : Step} (h : LocalAt p s) (fs : FS) :
+    (s.apply fs).get p = localStep s (fs.get p) := by
+  cases s with
+  | nop => rfl
+  | mkdirAll d => simp only [Step.apply]; split <;> rfl
+  | createTemp q t => cases h; simp [Step.apply, localStep]
+  | append q c =>
+    cases h
+    simp only [Step.apply]
+    cases hg : fs.get p with
+    | none => simp [localStep, hg]
+    | some f => simp [localStep]
+  | chtimes q t =>
+    cases h
+    simp only [Step.apply]
+    cases hg : fs.get p with
+    | none => simp [localStep, hg]
+    | some f => simp [localStep]
+  | rename a b => cases h
+  | remove q => cases h; simp [Step.apply, localStep]
+
 end ArvVerif.C02
